@@ -47,7 +47,8 @@ PROP = dict(
           "netloc_fb cases whose first stage has the empty host. "
           "Distinct = distinct case encodings; the hot loops (2^24 three-byte strings per function, 6^8 eight-character texts) register one entry "
           "per block, so the distinct count is a lower bound."),
-    assumptions=["base64 validity predicate (RFC 4648 + the property statement): length % 4 == 0, every character in the alphabet, '=' only in "
+    assumptions=["the spelling of render_netloc's text is the library's (host, host:port, host:0 ...): only the round trip through parse_netloc is judged; a port 0 that is written out parses back as 0 or as the default port",
+                 "base64 validity predicate (RFC 4648 + the property statement): length % 4 == 0, every character in the alphabet, '=' only in "
                  "the last position or in the last two positions; a text of that shape with non-zero unused trailing bits (which no encoder produces) may be "
                  "decoded (bits dropped, as /repo and Python do) or refused with invalid_argument as non-canonical - both are within the statement",
                  "hosts are non-empty and colon-free, ports and default ports are in 0..65535; port 0 renders without ':' and parses back "
